@@ -152,6 +152,8 @@ def print_assumptions(prop_module, theorems, workdir, timeout=300):
             f.write('Goal True. idtac "@@THM %s". Abort.\n' % t)
             f.write("Print Assumptions %s.%s.\n" % (prop_module, t))
     rc, out, err = _coqc(path, timeout)
+    if rc == 124:      # time-out on a loaded machine: once more with three times the budget
+        rc, out, err = _coqc(path, timeout * 3)
     if rc != 0:
         # find which theorem is missing by running them one at a time
         for t in theorems:
